@@ -19,6 +19,8 @@ import (
 	"sort"
 	"sync"
 	"time"
+
+	"github.com/samaritan-proxy/samaritan/utils/vhook"
 )
 
 // the acutal counter value that can be represented is 50k which is enough for a proxy.
@@ -262,6 +264,7 @@ func (c *Collector) collect() {
 	}
 
 	// update the cached hot keys
+	vhook.At("hotkey.collect.before_publish")
 	c.rwmu.Lock()
 	c.keys = res.Data()
 	c.rwmu.Unlock()
